@@ -663,7 +663,11 @@ var markerPool = []string{"<script>verif-marker</script>", "\"><img src=x onerro
 	// backslashes and quotes, bytes that are not UTF-8
 	"bell\averif-marker\x00nul", "vt\vesc\x1bdel\x7f<verif-marker>", "ls\u2028ps\u2029verif-marker", "tag\U000e0001verif-marker", "back\\slash\"quote'verif-marker", "bad\xffutf8\xc3(verif-marker",
 	// values that already contain character references (as if pre-encoded) next to live markup
-	"Terms &amp; conditions <script>verif-marker</script>", "it&#39;s \"><img src=x onerror=verif-marker>", "&lt;b&gt; then <b verif-marker>", "&quot;&#x3c;\"'<verif-marker>", "&nbsp;&bogus;<verif-marker>"}
+	"Terms &amp; conditions <script>verif-marker</script>", "it&#39;s \"><img src=x onerror=verif-marker>", "&lt;b&gt; then <b verif-marker>", "&quot;&#x3c;\"'<verif-marker>", "&nbsp;&bogus;<verif-marker>",
+	// characters outside ASCII that become markup when narrowed to one byte (U+013C -> '<', U+013E -> '>', U+0122 -> '"', U+0127 -> '\'',
+	// U+203C / U+203E likewise) or folded by a compatibility normalisation (full-width and small forms of the angle brackets)
+	"\u013cverif-marker-img src=x onerror=alert(1)\u013e", "\u203cscript\u203everif-marker\u203c/script\u203e", "x\u0122 onmouseover=\u0127verif-marker\u0127 y=\u0122",
+	"\uff1cverif-marker\uff1e", "\ufe64verif-marker\ufe65"}
 
 // every header name that occurs as a string literal in the code under check (regenerated dictionary, build/dict.json) except
 // the ones with a dedicated field of reqSpec; plus the request headers of the CORS and upgrade protocols.  The model takes none
@@ -747,6 +751,12 @@ func (w *world) randomReqSpec0(rng *mrand.Rand, prop string) reqSpec {
 	if (prop == "C17" || prop == "C11") && rng.Intn(4) == 0 { // forwarding headers as chained or broken proxies produce them
 		rs.xfProto = []string{"https,http", "https, http", "1https", "HTTPS", "ht tp", "https://", ""}[rng.Intn(7)]
 		rs.xfHost = []string{"app test", "app.test%zz", "app.test:http", "[::1", "app.test, proxy.internal", "a\"b.test", ""}[rng.Intn(7)]
+	}
+	if (prop == "C17" && rng.Intn(2) == 0) || (prop == "C08" && rng.Intn(3) == 0) {
+		// Accept values that are syntactically off: parameters without a value or without a name, stray separators, empty elements
+		rs.accept = []string{"application/json;q", "text/html, application/json; q ;charset=utf-8", "application/json;q=", "application/json;=1", "application/json;;", ";", ",", ",,application/json",
+			"application/json; q=abc", "application/json;q=1.0.0", "application/json/extra", "/", "application/", "application/json;" + strings.Repeat("a=b;", 200), "text/html;q=0, application/json;q=0",
+			"application/json;charset", "application/json ; q", "application/json;q;q=1", "text/html;level, application/json;q;v", "application/json;q=\"", "application/json;q= ;"}[rng.Intn(21)]
 	}
 	if prop == "C16" && rng.Intn(2) == 0 {
 		rs.accept = []string{"", "text/html", "application/json", "<verif-marker>", "text/html;profile=\"application/json\"", "text/html; q=0.9; x=json", "application/xhtml+xml;profile=application/json",
@@ -1297,6 +1307,14 @@ func (w *world) scripted(prop string, sc int, rng *mrand.Rand) {
 			o2 := w.plain("/x", reqSpec{note: "after a rejected login"}, rng)
 			if o2 != nil && o2["class"] == "forward" {
 				T.oracle("C06", "request forwarded after a login that was rejected", nil, w.replay())
+			}
+		}
+		if prop == "C10" && res.ok && len(w.tmpls) > 0 && o.expIn > 30*time.Minute {
+			// another router of the same process serves this browser in between: the names this instance strips stay its own
+			w.plain("/before-other-router", w.randomReqSpec(rng, prop), rng)
+			w.otherRouterServes()
+			for i := 0; i < 3; i++ {
+				w.plain("/after-other-router", w.randomReqSpec(rng, prop), rng)
 			}
 		}
 		if res.ok && sc%3 != 1 { // a second user of the same instance, with groups of their own (listed or not), with a token of another
